@@ -4,6 +4,7 @@ import (
 	"fmt"
 	"go/token"
 	"go/types"
+	"math"
 	"sort"
 	"strings"
 
@@ -921,6 +922,36 @@ func configOnly(v ssa.Value, arg *ssa.Parameter, memo map[ssa.Value]int) bool {
 	return res
 }
 
+// handedBackThroughPhi: every use of the phi (through further phis) is a store
+// into the result or an argument of the output conversion rtod/rtodxy: the
+// values it selects between are returned as they are, never combined with
+// anything.
+func handedBackThroughPhi(phi *ssa.Phi, d int) bool {
+	if d > 4 || len(*phi.Referrers()) == 0 {
+		return false
+	}
+	for _, r := range *phi.Referrers() {
+		switch x := r.(type) {
+		case *ssa.Store:
+			if x.Val != ssa.Value(phi) {
+				return false
+			}
+		case *ssa.Phi:
+			if !handedBackThroughPhi(x, d+1) {
+				return false
+			}
+		case *ssa.Call:
+			if n := calleeName(x); n != "carto.rtodxy" && n != "carto.rtod" {
+				return false
+			}
+		case *ssa.DebugRef:
+		default:
+			return false
+		}
+	}
+	return true
+}
+
 func runC19Pair(c *Ctx) {
 	for _, p := range cartoProjections(c) {
 		collect := func(f *ssa.Function) map[string]ssa.Value {
@@ -938,6 +969,11 @@ func runC19Pair(c *Ctx) {
 				// maximal: some user is not config-only (it meets the argument) — or it is a call result
 				maximal := false
 				for _, r := range *v.Referrers() {
+					if phi, isPhi := r.(*ssa.Phi); isPhi && handedBackThroughPhi(phi, 0) {
+						// selected (not combined) on one branch and handed back through
+						// the output conversion, like the stored case below
+						continue
+					}
 					if rv, ok := r.(ssa.Value); ok {
 						if !configOnly(rv, arg, memo) {
 							maximal = true
@@ -1174,4 +1210,108 @@ func smallIntConst(v ssa.Value) (int64, bool) {
 		return int64(f), true
 	}
 	return 0, false
+}
+
+// ---------------------------------------------------------------------------
+// C19.rational
+// ---------------------------------------------------------------------------
+
+func init() {
+	register(&Rule{
+		ID:    "C19.rational",
+		Props: []string{"C19"},
+		Doc:   "a projection whose Forward and Reverse use no transcendental function (only + - * / on the argument, the configuration fields and the degree/radian scalings dtor, rtod, rtodxy) is a pair of rational functions, and Reverse∘Forward must be the identity AS a rational function: both are interpreted with every configuration field and both ordinates ranging over three generic values each (a rational identity of degree ≤ 2 per variable is decided by 3 values per variable) and the composition must return the point it was given (to 1e-9 relative: the scalings by π/180 are rounded). Today this is the equirectangular projection (x = R(λ-λ0)cosφ1: a central-meridian offset divided by cosφ1, or a radius applied on one side only, is a different rational function)",
+		Floor: 1,
+		Run:   runC19Rational,
+	})
+}
+
+func runC19Rational(c *Ctx) {
+	scalings := map[string]bool{"carto.dtor": true, "carto.rtod": true, "carto.rtodxy": true}
+	inl := func(g *ssa.Function) bool { return scalings[FuncName(g)] }
+	n := 0
+	for _, p := range cartoProjections(c) {
+		rational := true
+		for _, f := range []*ssa.Function{p.forward, p.reverse} {
+			eachCallWithNewHelpers(f, func(call ssa.CallInstruction) {
+				cal := staticCallee(call)
+				if cal == nil || !(scalings[FuncName(cal)] || isNewHelper(cal)) {
+					rational = false
+				}
+			})
+		}
+		if !rational {
+			continue
+		}
+		n++
+		st, _ := p.named.Underlying().(*types.Struct)
+		var keys []string
+		for i := 0; st != nil && i < st.NumFields(); i++ {
+			if isFloat(st.Field(i).Type()) {
+				keys = append(keys, "$0."+canonFieldName(st.Field(i)))
+			}
+		}
+		keys = append(keys, "$1.X", "$1.Y")
+		// generic values: distinct per variable, no zero, no symmetry
+		gen := func(i, j int) float64 { return []float64{0.37, 1.9, -2.3}[j] + 0.11*float64(i) }
+		problem, undec := "", ""
+		models := 0
+		idx := make([]int, len(keys))
+		for problem == "" && undec == "" {
+			models++
+			m := &Model{Num: map[string]float64{}, Bool: map[string]bool{}, Missing: map[string]bool{}}
+			for i, k := range keys {
+				m.Num[k] = gen(i, idx[i])
+			}
+			run := func(f *ssa.Function, x, y float64) (float64, float64, string) {
+				m.Num["$1.X"], m.Num["$1.Y"] = x, y
+				m.Missing = map[string]bool{}
+				it := &k4interp{p: c.P, m: m, mem: map[string]k4val{}, inline: inl}
+				res, err := it.call(f, []k4val{{kind: 3, s: "$0"}, {kind: 3, s: "$1"}}, nil)
+				if err != nil || len(res) != 1 || res[0].kind != 3 {
+					return 0, 0, fmt.Sprintf("%v %v %s", err, res, trunc(missingList(m)))
+				}
+				rx, e1 := it.lookup(res[0].s+".X", nil0)
+				ry, e2 := it.lookup(res[0].s+".Y", nil0)
+				if e1 != nil || e2 != nil || rx.kind != 2 || ry.kind != 2 {
+					return 0, 0, "result ordinates not numeric"
+				}
+				return rx.f, ry.f, ""
+			}
+			lon, lat := m.Num["$1.X"], m.Num["$1.Y"]
+			fx, fy, u := run(p.forward, lon, lat)
+			if u != "" {
+				undec = u
+				break
+			}
+			bx, by, u := run(p.reverse, fx, fy)
+			if u != "" {
+				undec = u
+				break
+			}
+			near := func(a, b float64) bool { return math.Abs(a-b) <= 1e-9*math.Max(1, math.Abs(b)) }
+			if !near(bx, lon) || !near(by, lat) {
+				m.Num["$1.X"], m.Num["$1.Y"] = lon, lat
+				problem = fmt.Sprintf("with the configuration and point %s, Forward gives (%v, %v) and Reverse of that gives (%v, %v), not the point (%v, %v): the two directions are not inverse rational functions", modelString(m), fx, fy, bx, by, lon, lat)
+				break
+			}
+			// next combination
+			k := 0
+			for k < len(idx) {
+				idx[k]++
+				if idx[k] < 3 {
+					break
+				}
+				idx[k] = 0
+				k++
+			}
+			if k == len(idx) {
+				break
+			}
+		}
+		reportK4(c, p.reverse, "Reverse∘Forward as a rational function", undec, problem, fmt.Sprintf("identity on %d generic points (3 values for each of %d variables)", models, len(keys)))
+	}
+	if n < 1 {
+		c.Errorf("no projection with purely rational Forward/Reverse found (expected the equirectangular projection)")
+	}
 }
